@@ -148,7 +148,7 @@ def parse_output(text, nfun):
     return res, done
 
 
-def build_and_run(src_text, tc, workdir, name, salt, timeout=600):
+def build_and_run(src_text, tc, workdir, name, salt, timeout=1800):
     """Compile and run one TU.  -> dict(compiled, cerr, rc, out, secs)"""
     src = os.path.join(workdir, name + ".cpp")
     exe = os.path.join(workdir, name + ".bin")
